@@ -285,3 +285,9 @@ from contracts import c11 as _c11
 for _o in _REG.get('C11', []):
     if _o.oid == 'C11.series.dxlog':
         _REG.setdefault('C10', []).append(_Ob('C10.callee.dxlog_series', _o.func, _o.fns, _o.tier, _o.backend, _o.doc, _o.replay, 'C10'))
+
+
+def fidelity(tier, seed):
+    """A-FRONT guard: the scalar functions of the files under contract, interpreter (float mode) vs compiled real code, bit for bit"""
+    from gm2v import fidelity as _fid
+    return _fid.scalar_guard(['src/THDM/gm2_2loop_B.cpp'], ['src/gm2_ffunctions.cpp', 'src/gm2_dilog.cpp', 'src/gm2_numerics.cpp'], n_calls=25 if tier == 'quick' else 200, seed=seed, ns_prefix='thdm::', approx=('T7', 'T8'))
